@@ -512,6 +512,7 @@ impl Vm {
         }
         #[cfg(marwood_verif)]
         if !self.verif.force_gc
+            && !self.verif.gc_always
             && (self.heap.used_size() as f64 / self.heap.capacity() as f64) < 0.75_f64
         {
             self.verif_log_gc(verif_before, false, verif_before.0);
